@@ -314,6 +314,7 @@ type Baseline struct {
 	Properties map[string][]BaselineEntry `json:"properties"`
 	Symbols    map[string][]Sym           `json:"symbols,omitempty"`  // variables of the functions under contract (rename tolerance)
 	Closures   map[string][]ClosureSig    `json:"closures,omitempty"` // ordered function literals per parent (renumbering tolerance)
+	Covers     map[string][]string        `json:"covers,omitempty"`   // return sites that were reachable when the baseline was taken
 }
 
 func baselinePath() string { return filepath.Join(verifDir, "baseline", "obligations.json") }
@@ -441,6 +442,9 @@ func cmdBaseline(args []string) int {
 	tmp, _ := os.MkdirTemp("", "gobv")
 	defer os.RemoveAll(tmp)
 	old, _ := loadBaseline()
+	if old.Covers == nil {
+		old.Covers = map[string][]string{}
+	}
 	old.Symbols = e.allSymbols()
 	old.Closures = e.allClosures()
 	props := fs.Args()
@@ -474,6 +478,14 @@ func cmdBaseline(args []string) int {
 		}
 		sort.Slice(entries, func(i, j int) bool { return entries[i].Name < entries[j].Name })
 		old.Properties[p] = entries
+		var cov []string
+		for n, o := range pr.Obs {
+			if strings.Contains(n, "/cover:site:") && o.OK && !o.CoverUndecided {
+				cov = append(cov, n)
+			}
+		}
+		sort.Strings(cov)
+		old.Covers[p] = cov
 		fmt.Printf("%s: %d obligations admitted, %d not, %d engine errors\n", p, len(entries), fail, len(pr.Errors))
 		for _, er := range pr.Errors {
 			fmt.Println("   ERROR:", er)
@@ -572,11 +584,23 @@ func cmdCheck(args []string) int {
 	// covers (vacuity): must be sat
 	covers, coverFail := 0, 0
 	for n, o := range pr.Obs {
+		if strings.Contains(n, "/cover:site:") {
+			continue
+		}
 		if strings.Contains(n, "/cover:") {
 			covers++
 			if !o.OK {
 				coverFail++
 				fmt.Printf("HARNESS-ERROR: vacuous contract: %s\n", n)
+			}
+		}
+	}
+	for _, n := range base.Covers[*prop] {
+		if o := pr.Obs[n]; o != nil {
+			covers++
+			if !o.OK {
+				coverFail++
+				fmt.Printf("HARNESS-ERROR: a return site that was reachable when the baseline was taken is now unreachable under the assumed contracts (vacuous proofs beyond it): %s\n", n)
 			}
 		}
 	}
